@@ -13,10 +13,31 @@ InitAll == OrdSt \X AzSt \X ChSt
 InitOne == { <<"pending", "pending", "pending">> }
 InitReady == { <<"ready", "valid", "valid">>, <<"processing", "valid", "valid">> }
 
+\* first-call filters
+AnyCall(n, o, a, c) == TRUE
+\* one initial state per distinct status of the resources the operation can see
+FocusCall(n, o, a, c) ==
+  CASE n \in {"AuthorizeOrder", "GetOrder", "WaitOrder", "CreateOrderCert"} -> TRUE
+    [] n \in {"GetAuthorization", "WaitAuthorization", "RevokeAuthorization"} ->
+         <<o, a, c>> \in { <<"pending", "pending", "pending">>, <<"pending", "pending", "processing">>, <<"pending", "valid", "valid">>,
+                          <<"invalid", "invalid", "invalid">>, <<"pending", "deactivated", "pending">>, <<"valid", "expired", "valid">>,
+                          <<"valid", "revoked", "valid">> }
+    [] n \in {"GetChallenge", "Accept"} ->
+         <<o, a, c>> \in { <<"pending", "pending", "pending">>, <<"pending", "pending", "processing">>, <<"pending", "valid", "valid">>,
+                          <<"invalid", "invalid", "invalid">> }
+    [] OTHER -> <<o, a, c>> = <<"pending", "pending", "pending">>
+
+\* environment filters
+AnyEnv(r) == TRUE
+\* only the resource the pending request shows (used with the malformed server, whose resources are not coupled)
+FocusEnv(r) == r = (CASE cur \in OrderReqs -> "ord" [] cur \in {"authz", "deact"} -> "az" [] cur \in {"chal", "accept"} -> "ch" [] OTHER -> "none")
+
+QuickShapes == {"ok", "noloc", "nocert", "garbage", "e4xx", "e5xx", "neterr", "cancel"}
 AllShapes  == {"ok", "ctype", "noloc", "nocert", "garbage", "e4xx", "e5xx", "neterr", "cancel"}
 CoreShapes == {"ok", "noloc", "garbage", "e4xx", "e5xx", "cancel"}
 AllCerts   == {"c1", "c2", "c5", "c6", "c1key", "empty", "junk", "keyfirst", "big"}
 FewCerts   == {"c2", "c6", "junk"}
+NegRetry   == {0, 0 - 1}            \* a cfg file cannot spell a negative number
 WaitOps    == {"WaitOrder", "WaitAuthorization", "CreateOrderCert"}
 FlowOps    == {"AuthorizeOrder", "GetAuthorization", "Accept", "WaitAuthorization", "WaitOrder", "CreateOrderCert",
                "RevokeAuthorization", "DeactivateReg"}
